@@ -126,6 +126,16 @@ pub fn past_deadline() -> bool {
 static CUR_SEED: std::sync::atomic::AtomicU64 = std::sync::atomic::AtomicU64::new(0);
 static CUR_K: std::sync::atomic::AtomicU64 = std::sync::atomic::AtomicU64::new(0);
 
+static MONITOR_SEEN: std::sync::atomic::AtomicU64 = std::sync::atomic::AtomicU64::new(0);
+
+/// How often detsim's monitor had to detach a baton holder that blocked in the kernel without
+/// announcing it (never, unless the tree has grown a blocking call the harness does not know).
+fn note_monitor(st: &mut Stats) {
+    let now = detsim::implicit_detaches();
+    let before = MONITOR_SEEN.swap(now, std::sync::atomic::Ordering::Relaxed);
+    Stats::bump(&mut st.faults, "unannounced_os_block_detached_by_monitor", now - before);
+}
+
 pub fn cmd_worker(a: &[String]) {
     let prop = a[0].clone();
     let thorough = a[1] == "thorough";
@@ -199,12 +209,14 @@ pub fn cmd_worker(a: &[String]) {
         k += 1;
         if k % 16 == 0 {
             // flush statistics regularly: a run that deadlocks ends this process
+            note_monitor(&mut st);
             let mut o = out.lock();
             let _ = writeln!(o, "STATS {}", serde_json::to_string(&st).unwrap());
             let _ = o.flush();
             st = Stats::default();
         }
     }
+    note_monitor(&mut st);
     let mut o = out.lock();
     let _ = writeln!(o, "STATS {}", serde_json::to_string(&st).unwrap());
     let _ = writeln!(o, "DONE");
